@@ -5,6 +5,7 @@ ID = "C03"
 LEVEL = "proof"
 RULE = ("transactions with 1-6 inputs/outputs (sequences non-palindromic in most), every input index incl. out-of-range, "
         "all six FORKID flags, subscripts of length 0/1/252/253/65535/65536 and structured ones, values across u64; "
+        "tx.sighash_ann: inputs annotated with satoshis / locking scripts (signed and other inputs, equal and unequal to the arguments) on objects obtained directly, by clone, JSON, CBOR, construction API, hex; "
         "tx.sign_verify on a sample; non-trivial = the model returns a preimage; distinct by (op, arguments)")
 TRUSTED = ["hand-written Gallina model coq/Model/Sighash.v of src/transaction/sighash.rs (tied by this correspondence run)",
            "coq/Model/Tx.v, coq/Model/Script.v (transaction / script parsing, properties C01 / C02)",
@@ -80,6 +81,22 @@ def generate(rng, tier):
     # 253 inputs / 256 outputs (counts on the compact-size boundary inside the hashed strings)
     for (fl, idx) in [(0x41, 252), (0x43, 252), (0xC1, 0), (0x43, 255)]:
         cases.append(("tx.sighash", [G.BIG_COUNT_TX, str(idx), str(fl), "ac", "1"]))
+    # 4c. state carried in the object: optional annotations (satoshis, locking script) on the signed and on the other inputs, equal
+    # and unequal to the call arguments (incl. value 0 / 2^64-1 and the empty subscript), on objects obtained directly, through clone,
+    # JSON, CBOR, the construction API and hex; the preimage is a function of the wire fields and the arguments only
+    A = lambda tx, idx, fl, sub, v, ann, route: cases.append(("tx.sighash_ann", [tx.hex(), str(idx), str(fl), sub, str(v), ann, route]))
+    subs = [G.P2PKH, "", "ab51", "ac"]
+    n = 0
+    for fi, fl in enumerate(G.FORKID_FLAGS):
+        for i in range(3):
+            v = [0, G.U64 - 1, 12345, 2 ** 63][(fi + i) % 4]
+            for ai, ann in enumerate(G.annotation_sets(i, v)):
+                routes = G.ROUTES if (tier == "thorough" or ai in (0, 2, 3)) else [G.ROUTES[(n + ai) % 6]]
+                for r in routes:
+                    A(G.EXTREME_TXS[(fi + ai) % 3], i, fl, subs[(n + ai) % 4], v, ann, r)
+                n += 1
+    A(G.EXTREME_TXS[0], 0, G.FORKID_FLAGS[0], "ac", 5, "-", "j")
+    A(G.EXTREME_TXS[0], 3, G.FORKID_FLAGS[0], "ac", 5, "0,7,-", "b")
     # 5. random bulk
     for _ in range(120 if tier == "quick" else 1500):
         nin, nout = rng.randrange(1, 7), rng.randrange(0, 7)
